@@ -150,11 +150,32 @@ func loadKnown(prop string) []known {
 	var out []known
 	for _, line := range strings.Split(string(data), "\n") {
 		line = strings.TrimSpace(line)
-		if line == "" || strings.HasPrefix(line, "#") {
+		if !strings.HasPrefix(line, "known:") {
 			continue
 		}
-		var k known
-		if json.Unmarshal([]byte(line), &k) == nil && k.Property == prop && k.Status == "known" {
+		head := line
+		what := ""
+		if i := strings.Index(line, " :: "); i >= 0 {
+			head, what = line[:i], line[i+4:]
+		}
+		k := known{Status: "known", What: what}
+		for _, tok := range strings.Fields(head)[1:] {
+			kv := strings.SplitN(tok, "=", 2)
+			if len(kv) != 2 {
+				continue
+			}
+			switch kv[0] {
+			case "property":
+				k.Property = kv[1]
+			case "id":
+				k.ID = kv[1]
+			case "signature":
+				k.Sig = kv[1]
+			case "witness":
+				k.Witness = kv[1]
+			}
+		}
+		if k.Property == prop {
 			out = append(out, k)
 		}
 	}
